@@ -229,4 +229,67 @@ def run(rep, tier):
     bcallers = {nx.outer_name(prog, f) for (f, e) in nx.callers_of(prog, {bt.id})}
     rep.ob("R17.5", "single-sequence-allocator", bcallers <= {"tx::Transaction::begin", "governance::element::commit", "store::schema::<impl store::Store>::activate_schema"} and "tx::Transaction::begin" in bcallers,
            "Store::begin_transaction (the sequence allocator) is called from %s" % sorted(bcallers), bt.file + ":%d" % bt.line)
+    # ------------------------------------------------------------------ R17.6 identity conflicts are looked for before the first write
+    rep.rule("R17.6", "every uniqueness constraint the element collections enforce on write (#[unique] columns of the Element row types) is looked for by a "
+                      "pre-write check over the staged rows: otherwise the index refuses the row in the middle of the write loop, after earlier rows are durable", floor=1)
+    el = prog.adts.get(nx.N + "::store::Element")
+    if el is None:
+        raise CheckerFault("anchor missing: store::Element")
+    row_types = []
+    for v in el["variants"]:
+        for fld in v["fields"]:
+            m_ = re.search(r"(anda_cognitive_nexus::store::rows::\w+Row)", fld["ty"])
+            if m_:
+                row_types.append(m_.group(1))
+    uniq = []
+    for rt in row_types:
+        sch = [f for f in prog.fns.values() if f.path == rt + "::schema"]
+        if not sch:
+            raise CheckerFault("anchor missing: %s::schema (derived)" % rt)
+        fields = {x["name"] for v in prog.adts[rt]["variants"] for x in v["fields"]}
+        for u in sch[0].calls_named(r"FieldEntry::with_unique$"):
+            names = {o[1].get("str") for o in sch[0].slice_back_op(u.args[0], through=lambda ev: True) if o[0] == "const" and o[1].get("str")}
+            for n_ in sorted(names & fields):
+                uniq.append((rt, n_))
+    cbw = prog.fn(TX + "::check_before_write")
+    reach = prog.reach_set([cbw.id])
+    checkers = [f for f in prog.fns.values() if f.id in reach and f.file.endswith("/tx.rs")]
+
+    def reads_field(f, rt, fname):
+        short = rt.rsplit("::", 1)[1]
+
+        def scan(o):
+            if isinstance(o, dict):
+                if "l" in o and isinstance(o.get("p"), list) and any(isinstance(e, dict) and e.get("n") == fname for e in o["p"]):
+                    if short in f.locals[o["l"]]:
+                        return True
+                return any(scan(v) for v in o.values())
+            if isinstance(o, list):
+                return any(scan(v) for v in o)
+            return False
+        return scan(f.d["blocks"])
+    if not uniq:
+        rep.fault("R17.6: no #[unique] column found on any Element row type (PropositionRow.tuple_key expected)")
+    for (rt, fname) in uniq:
+        hits = [f for f in checkers if "staged" in _all_fields(f) and reads_field(f, rt, fname)]
+        rep.ob("R17.6", "pre-write-identity-check|%s.%s" % (rt.rsplit("::", 1)[1], fname), bool(hits),
+               "no function reachable from Transaction::check_before_write reads %s.%s of the staged rows: two staged rows with the same value (or one equal to a "
+               "committed row) are refused by the unique index only in the middle of the write loop, leaving the rows written before them" % (rt.rsplit("::", 1)[1], fname),
+               cbw.file + ":%d" % cbw.line)
     return rep.finish(EXPLAIN)
+
+
+def _all_fields(f):
+    out = set()
+
+    def scan(o):
+        if isinstance(o, dict):
+            if "n" in o and "f" in o:
+                out.add(o["n"])
+            for v in o.values():
+                scan(v)
+        elif isinstance(o, list):
+            for v in o:
+                scan(v)
+    scan(f.d["blocks"])
+    return out
